@@ -25,4 +25,24 @@ fn main() {
     let dir = std::env::var("OUT_DIR").unwrap();
     let mut f = std::fs::File::create(format!("{}/ops_macros.rs", dir)).unwrap();
     f.write_all(out.as_bytes()).unwrap();
+    // scalar-on-the-left operator impls of /repo/src/vec.rs (declared there for the primitive types only)
+    let path = "/repo/src/vec.rs";
+    println!("cargo:rerun-if-changed={}", path);
+    let src = std::fs::read_to_string(path).expect("read vec.rs");
+    let mut out = String::new();
+    for name in ["vec_impl_binop_commutative"].iter() {
+        let key = format!("macro_rules! {} {{", name);
+        let start = src.find(&key).unwrap_or_else(|| panic!("symx build: macro {} not found in vec.rs", name));
+        let bytes = src.as_bytes();
+        let mut i = start + key.len() - 1; let mut depth = 0i32; let mut end = 0usize;
+        while i < bytes.len() {
+            match bytes[i] { b'{' => depth += 1, b'}' => { depth -= 1; if depth == 0 { end = i + 1; break; } } _ => {} }
+            i += 1;
+        }
+        assert!(end > 0, "unbalanced braces in macro {}", name);
+        out.push_str(&src[start..end]);
+        out.push_str("\n");
+    }
+    let mut f = std::fs::File::create(format!("{}/vec_macros.rs", dir)).unwrap();
+    f.write_all(out.as_bytes()).unwrap();
 }
